@@ -55,16 +55,11 @@ def St.tchain (s : St) : Nat → Option Nat → List Table
     | some t => t :: s.tchain fuel t.proto
     | none => []
 
-/-- the own entries of a table in bucket order, as `put` arguments -/
-def putsOf (t : Table) : List (KArg × Nat) :=
-  (liveOf t.data).map (fun kv => (match kv.key with | some k => KArg.key k | none => KArg.nil, kv.val))
-
 /-- boot.janet `freeze` on a table whose keys and values are immutable: per level a fresh `@{}` filled by `put` in
 iteration order, `table/to-struct` of it, with the frozen prototype as prototype (deepest level first) -/
 def St.freezeChain (s : St) (chain : List Table) : St × Option Nat :=
   chain.foldr (fun t (acc : St × Option Nat) =>
-    let temp := fromPuts acc.1.h (putsOf t)
-    let st : Struct := { temp.toStruct acc.1.h acc.1.rank with proto := acc.2 }
+    let st : Struct := { freezeLevel acc.1.h acc.1.rank t with proto := acc.2 }
     let ok := certToStruct acc.1.h t st
     ({ acc.1 with sheap := acc.1.sheap.push st, certFail := acc.1.certFail || !ok }, some acc.1.sheap.size)) (s, none)
 
@@ -295,7 +290,7 @@ def stepOp (s : St) (toks : List String) : St × String :=
       | "thaw", [d] => match regOf 'T' NT d with     -- (walk-dict thaw (table/proto-flatten ds)) on immutable keys / values
         | some d =>
           let flat := protoFlatten h (s.tchain (if flattenBounded then maxProtoDepth else 100000) (some (s.T.getD r 0)))
-          (s.newTab d (fromPuts h (putsOf flat)), "ok")
+          (s.newTab d (thawFlat h flat), "ok")
         | none => (s, "bad-op")
       | _, _ => (s, "bad-op")
     -- ------------------------------------------------ structs
@@ -340,8 +335,7 @@ def stepOp (s : St) (toks : List String) : St × String :=
           let pr : Option (Option Nat) := if p == "nil" then some none else (regOf 'S' NS p).map (fun j => some (s.S.getD j 0))
           match pr with
           | some pr =>
-            let b := (liveOf st.data).foldl (fun b kv => match kv.key with | some k => structPut h s.rank true b k kv.val | none => b) (structBegin st.length)
-            (s.newStrCert d { structEnd h s.rank b with proto := pr } none, "ok")
+            (s.newStrCert d (st.withProto h s.rank pr) none, "ok")
           | none => (s, "err")
         | none => (s, "bad-op")
       | _, _ => (s, "bad-op")
